@@ -34,7 +34,7 @@ SHAPE_TYPES = {
     "R4": ("SEQUENCE { a INTEGER (0..255), b INTEGER (0..255), c INTEGER (0..255), d INTEGER (0..255) }", "300c800101810102820103830104", "01020304",
            "<R4><a>1</a><b>2</b><c>3</c><d>4</d></R4>"),
     "A1": ("BOOLEAN", "0101ff", "80", "<A1><true/></A1>"),
-    "A2": ("OCTET STRING (SIZE(2))", "04026869", "6869", "<A2>68 69</A2>"),
+    "A2": ("OCTET STRING (SIZE(2))", "04026869", "6869", "<A2>6869</A2>"),
     "A3": ("SEQUENCE { a INTEGER (0..255), b INTEGER (0..65535) }", "300780010181020102", "010102", "<A3><a>1</a><b>258</b></A3>"),
     "A4": ("INTEGER (0..4294967295)", "020401020304", "01020304", "<A4>16909060</A4>"),
 }
@@ -174,7 +174,9 @@ def shape_assignments(rng, members, n):
         a[j] = NOROW
         out.append(a)
         if members[j]["opt"]:
-            out.append(dict(a, **{j: None}))
+            b = dict(a)
+            b[j] = None
+            out.append(b)
             out.append({i: (None if i == j else value_for(members[i], (2 + k) % 4)) for k, i in enumerate(idx)})
     while len(out) < n:
         out.append({i: (None if members[i]["opt"] and rng.chance(1, 4) else value_for(members[i], rng.choice([0, 1, 2, 3, 3, 2, None]))) for i in idx})
@@ -404,7 +406,8 @@ def zero_patterns(syn):
     for v in zero_encodings(syn).values():
         pats += v
     if syn == "ber":
-        pats += ["0500" + "00" * k for k in (1, 2)] + ["30000000", "30800000", "040000", "02010500"]
+        pats += ["0500" + "00" * k for k in (1, 2)] + ["30000000", "040000", "02010500"]       # (no indefinite length inside the definite
+        # EXPLICIT tag: "mixed definite/indefinite lengths in one tag chain" is a recorded defect of another property)
     seen, out = set(), []
     for p in pats:
         if p not in seen:
